@@ -10,12 +10,16 @@ for d in sorted(glob.glob('/verif/seeded/*/')):
     checks = c.get('checks_quick_violation_lines', {})
     caught = [k for k, v in checks.items() if int(v) > 0]
     missed = [k for k, v in checks.items() if int(v) == 0]
-    later = m.get('caught_after_strengthening')
+    fr = m.get('first_run') or {}
+    later = None
+    first_missed = [k for k, v in fr.items() if int(v) == 0 and int(checks.get(k, 0)) > 0]
+    if first_missed:
+        later = 'first run missed by ' + ', '.join(first_missed) + '; reported after strengthening'
     rows.append('| %s | %s | %s | %s | %s | %s |' % (
         os.path.basename(d.rstrip('/')), m.get('property', '?'),
         (m.get('summary', '') or '').replace('|', '/').replace('\n', ' ')[:170],
         (m.get('needs', '') or '').replace('|', '/').replace('\n', ' ')[:150],
-        ', '.join(caught) or '-', (', '.join(missed) or '-') + ((' -> ' + later) if later else '')))
+        ', '.join(caught) or '-', (', '.join(missed) or '-') + ((' (' + later + ')') if later else '')))
 block = ('<!-- SEEDTABLE -->\n| seeded change | property | what was changed | needs, to manifest | reported by (quick) | not reported by |\n'
          '|---|---|---|---|---|---|\n' + '\n'.join(rows) + '\n<!-- /SEEDTABLE -->')
 p = '/verif/DESIGN.md'
